@@ -38,13 +38,32 @@ def gen_one(rng):
             items.append(dict(error=900 + i))
     if rng.random() < 0.1:
         items.insert(0, dict(error=899))
-    return dict(items=items,
+    case = dict(items=items,
                 conc_cli=rng.choice([None, None, None, 1, 2, 3]),
                 conc_builder=rng.choice(["default", None, 1, 2, 2, 4]),
                 ff_cli=rng.random() < 0.15, ff_builder=rng.random() < 0.15,
                 eager=rng.random() < 0.4, seed=rng.randrange(1, 1 << 30),
                 p_parser=rng.choice([10, 30, 60]), p_tick=rng.choice([0, 10, 30]), p_multi=rng.choice([0, 0, 30, 70]),
                 max_rounds=rng.choice([60, 200, 400]))
+    # an after hook that panics in the first `afails` attempts of some scenarios (a failed after hook alone makes
+    # the attempt a failed one: it is retried, and it trips fail-fast when final)
+    case["after_hook"] = rng.random() < 0.35
+    for it in items:
+        for sc in it.get("scenarios", []):
+            sc["afails"] = 0
+            if case["after_hook"] and rng.random() < 0.4:
+                budget = sc["retry"][0] if sc["retry"] else 0
+                sc["afails"] = min(rng.choice([1, 1, 2]), budget + 1)
+    # a before hook that panics (eagerly, in the hook function itself, or inside its future) in the first attempts
+    case["before_hook"] = rng.random() < 0.25
+    for it in items:
+        for sc in it.get("scenarios", []):
+            sc["bfails"], sc["beager"] = 0, False
+            if case["before_hook"] and rng.random() < 0.3:
+                budget = sc["retry"][0] if sc["retry"] else 0
+                sc["bfails"] = min(rng.choice([1, 1, 2]), budget + 1)
+                sc["beager"] = rng.random() < 0.5
+    return case
 
 
 def gen(rng, tier):
@@ -120,7 +139,7 @@ def nscen(case):
 def nontrivial(case, res):
     scs = [sc for it in case["items"] for sc in it.get("scenarios", [])]
     return len(scs) >= 2 and (any(sc["retry"] for sc in scs) or any(sc["serial"] for sc in scs)
-                              or any(sc["fails"] for sc in scs) or not case["eager"])
+                              or any(sc["fails"] or sc.get("afails") or sc.get("bfails") for sc in scs) or not case["eager"])
 
 
 def describe(case, res):
@@ -130,6 +149,8 @@ def describe(case, res):
             "ff=%s" % (case["ff_cli"] or case["ff_builder"]),
             "serial=%s" % any(sc["serial"] for sc in scs), "retry=%s" % any(sc["retry"] for sc in scs),
             "delay=%s" % any(sc["retry"] and sc["retry"][1] for sc in scs),
+            "after_hook_failure=%s" % any(sc.get("afails") for sc in scs),
+            "before_hook_failure=%s" % any(sc.get("bfails") for sc in scs),
             "scen=%s" % ("0" if not scs else "<3" if len(scs) < 3 else "<6" if len(scs) < 6 else ">=6")]
     if res is not None:
         keys.append("hang=%s" % bool(res.get("hang")))
@@ -137,7 +158,9 @@ def describe(case, res):
 
 
 RULE = ("cases = 1-3 features (0-3 top-level scenarios, 0-2 rules of 1-2 scenarios, empty rules) and 0-2 parser errors, each "
-        "scenario serial or not, with @retry(N) N in 0..2 optionally .after(30ms), failing its first k attempts, 1-2 gated steps; "
+        "scenario serial or not, with @retry(N) N in 0..2 optionally .after(30ms), failing its first k attempts, 1-2 gated steps; in 35% of the cases an after hook that panics in the first 1-2 attempts of "
+        "40% of the scenarios (a failed after hook alone makes the attempt a failed one), in 25% a before hook that panics — "
+        "eagerly or inside its future — in the first 1-2 attempts of 30% of the scenarios (no step of that attempt runs); "
         "concurrency from CLI (none/1/2/3) and builder (default 64 / unlimited / 1 / 2 / 4), fail-fast from CLI and/or builder; "
         "parser eager (all items ready) or lazy (items released by stimuli, Pending otherwise). The REAL runner::Basic is polled "
         "manually; stimuli (release a parser item, let one scenario pass one callback, advance the virtual clock) are drawn from "
